@@ -12,6 +12,12 @@ CHECKS = {
          "histories of at most 15 transactions; porcupine time-outs are counted inconclusive; writes outside transactions are excluded as the property excludes them"),
  "C06": ("exploration", "4 (C06)", "2-8 client tasks put (unique values), get and delete on 1-4 keys while flush, log rotation and compaction run under the seeded scheduler with injected stalls; invoke/return stamped with a global event counter; final reads, also after a restart, appended; porcupine checks one register per key; a failed write has no effect in the model",
          "at most ~55 operations per key; porcupine time-outs are counted inconclusive, never reported"),
+ "C16": ("exploration", "4 (C16)", "a replica engine (read-only flag set, real EngineApplier fed by an applier task) while client tasks call methods taken at run time from the method sets of *engine.EngineFacade and the service server with arguments synthesised from parameter types; the full-scan fingerprint must equal the model of replicated operations after every client call (alternating phases) or at the end (concurrent, exploring the applier's read-only window); calls classified mutating must return a read-only error; GetNodeInfo must be truthful",
+         "bypass methods (*Internal), Close, SetReadOnly and GetWAL are excluded as non-client entry points; the replication manager is constructed but not started (no sockets), the flag is set as startReplica sets it"),
+ "C19": ("exploration", "4 (C19)", "request programmes over every service method, with transactions interleaved by handle, boundary-size keys/values/batches and finished or unknown handles; handlers called in-process with requests and responses passed through proto.Marshal/Unmarshal; every response compared with the reference map that judges the embedded API; rejected requests must leave data and open handles untouched",
+         "stub: gRPC transport (no HTTP/2, no sockets); programmes are generated so that no request waits for the database lock of an open handle (blocking begins are C17's subject)"),
+ "C20": ("fault_enumeration", "4 (C20)", "manifest life cycle on the simulated disk: process death before/after every I/O point of its creation followed by reopen, N reopens of a database with data, every truncation offset and 60 sampled byte corruptions of the stored manifest over existing data (opening must fail when the content is unreadable or invalid); invalid generated configurations must be rejected with the disk image byte-identical",
+         "the field-by-field validity boundaries are a pure function exercised by plain input generation; 'documented constraint' is read as the conditions of Config.Validate; corruptions that leave a valid manifest get no verdict"),
  "C17": ("exploration", "4 (C17)", "client tasks begin/operate/commit/rollback/finish twice/use after finish/abandon on the engine and through the registry by handle; registry sweeps, idle and lifetime expiry, connection clean-up, graceful shutdown and the 10 s begin time-out run on virtual time with think times that make begins time out; later finishes must return the closed error without side effect and, once all clients are done, a fresh read-write transaction must begin within a bounded (unstalled) virtual time",
          "liveness bound: 90 s + idle limit of virtual time not counting injected stalls (15 s after a graceful shutdown); a client never asks for a second transaction while it holds one"),
  "C05": ("exploration", "4 (C05)", "programmes that spread versions and deletion markers over active/immutable memtables and SSTables (log files retired so that after a reopen the tables are the only copy) with scan probes on the engine and inside transactions: full/range/prefix/suffix/limit scans, Seek and SeekToLast (also inside range iterators) against the sorted reference map; plus a scanner task against concurrent writers of other keys with flush/compaction",
